@@ -138,3 +138,10 @@ prop("C11", modules=["wire"],
      assumptions=["the argument hash recomputed from decoded arguments equals the original one: follows from C04 (hash is a function of the normalised argument values) and is not re-proved here",
                   "field names are pinned from the current code (the repository has no separate written wire-format specification)",
                   "values compared with == against strings are plain data (no class with an exotic __eq__)"])
+
+FWAC = "reference:FunctionReferenceWithArguments."
+prop("C04", modules=["args"],
+     functions=[FWAC + "_compute_effective_kwargs"],
+     design_ref="DESIGN.md section 6, C04",
+     trusted=["json.dumps on primitives, isoformat, SHA-256: uninterpreted"],
+     assumptions=["parameter names are distinct strings (inspect.signature)"])
